@@ -826,6 +826,15 @@ func c17SparseSequence(c *Ctx, r *Rng) (shares [][]byte, desc string, multi bool
 			multi = true
 		}
 		c.count(fmt.Sprintf("mem_blob_shares_%d", min(len(shs), 6)))
+		if len(shs) == 1 && r.Bool(30) {
+			// malformed but accepted: one continuation share too many behind a sequence whose declared length
+			// fits its first share (the parser appends it to the payload before trimming)
+			extra := append(append([]byte{}, g.ns...), g.ver<<1)
+			extra = append(extra, r.Bytes(512-len(extra))...)
+			shares = append(shares, extra)
+			parts = append(parts, "extra-continuation")
+			multi = true
+		}
 		if r.Bool(35) {
 			k := 1 + r.Intn(2)
 			pads, err := share.NamespacePaddingShares(nsOf(g.ns), g.ver, k)
